@@ -43,6 +43,16 @@ run_one() {
   fi
   rm -rf "$tmp"
 }
-for p in "$VERIF"/selftest/mutants/*.patch; do [ -e "$p" ] && run_one "$p" fail; done
-for p in "$VERIF"/selftest/refactors/*.patch; do [ -e "$p" ] && run_one "$p" pass; done
+export -f run_one
+export VERIF REPO
+WANT="${want[*]:-}"
+export WANT
+par=${SELFTEST_PAR:-4}
+res=$(mktemp /tmp/gvc-selftest-res-XXXXXX)
+{
+  for p in "$VERIF"/selftest/mutants/*.patch; do [ -e "$p" ] && echo "$p fail"; done
+  for p in "$VERIF"/selftest/refactors/*.patch; do [ -e "$p" ] && echo "$p pass"; done
+} | xargs -P "$par" -L 1 bash -c 'want=($WANT); run_one "$0" "$1"' | tee "$res"
+if grep -q "^MISS\|^FALSE-ALARM\|^SELFTEST-ERROR" "$res"; then fail=1; fi
+rm -f "$res"
 exit $fail
